@@ -11,7 +11,7 @@ RULE = ('random small HA/SM/HR/SPA specs (12 hostile shapes) rendered with white
         'a case is non-trivial when the run is Optimal and the instance has >=2 valid matchings and >=1 acceptable '
         'but invalid assignment; distinct = distinct (instance, option set)')
 ASSUMPTIONS = ['CBC decides the small pin-probe programs correctly', 'reference model in rv/refmodel.py encodes validity as stated in C01']
-PROFILE = {'name': 'c01', 'spec': {}, 'opts': {}, 'medium_rate': 0.1, 'shipped_rate': 0.02}
+PROFILE = {'name': 'c01', 'spec': {}, 'opts': {}, 'medium_rate': 0.1, 'shipped_rate': 0.02, 'large_rate': 0.04}
 
 
 def plan(tier):
